@@ -33,7 +33,16 @@ func (r *RuleEntity) AcceptInteger(val int64) error {
 }
 
 
-func (r *RuleEntity) Execute(dc *context.DataContext) (interface{}, error, bool) {
+func (r *RuleEntity) Execute(dc *context.DataContext) (res interface{}, err error, returned bool) {
+	// a fault anywhere in the rule body (not only inside assignments and calls,
+	// which recover on their own) must fail this rule, not the process
+	defer func() {
+		if p := recover(); p != nil {
+			res, returned = nil, false
+			err = errors.New(fmt.Sprintf("rule \"%s\" execute error: %+v", r.RuleName, p))
+		}
+	}()
+
 	v, e, b := r.RuleContent.Execute(dc, make(map[string]reflect.Value))
 	if v == reflect.ValueOf(nil) {
 		return nil, e, b
